@@ -27,8 +27,10 @@ CONSTANTS
   InstFS,    \* sequence of file-system instances; an instance is a function
              \* physical path -> entry (Dir / File / Link)
   Spell,     \* sequence of base spellings [name, route, cwd, b, mp]  (cwd physical; b, mp strings)
-  LoadFix    \* TRUE: ir.load derives  dirname(path) or "."  (the intended design)
+  LoadFix,   \* TRUE: ir.load derives  dirname(path) or "."  (the intended design)
              \* FALSE: ir.load derives dirname(path)          (the code as pinned)
+  LoadReach  \* the placements of an external tensor inside a model that ir.load's traversal reaches
+             \* (the intended design: all of Placements)
 
 Fuel == 8    \* bound on symbolic-link expansions in one walk (instances are loop free)
 
@@ -207,12 +209,21 @@ NoOverRejectPlainAt(C, loc, e) ==
 NoOverRejectAt(C, lg, e) ==
   (~IsEmptyS(C.b) /\ e.lex /\ e.o.f # 0 /\ e.o.f \in lg) => VerdictOf(e) = Acc(e.o.f)
 
+\* where an external tensor can sit in a model (every one of them is read through the same
+\* access paths, so ir.load has to hand the base directory to all of them)
+Placements == {"initializer", "node-attribute", "tensors-attribute", "subgraph-initializer",
+               "subgraph-node-attribute", "nested-subgraph-node-attribute",
+               "function-node-attribute", "function-subgraph-initializer"}
 \* ir.load(path): base_dir of every external tensor of the model
 LoadBaseDir(mp) == LET d == Dirname(mp) IN IF LoadFix /\ IsEmptyS(d) THEN <<".">> ELSE d
 \* ... must be a non-empty spelling of the directory that holds the model file
 LoadBaseAt(I, cwd, mp) ==
   LET b == LoadBaseDir(mp)  m == KRes(I, cwd, mp)  d == KRes(I, cwd, b) IN
   ~IsEmptyS(b) /\ m.ok /\ d.ok /\ d.p = PParent(m.p)
+\* a tensor the traversal does not reach keeps the deserializer's default base_dir "" (no boundary)
+LoadBaseDirOf(mp, pl) == IF pl \in LoadReach THEN LoadBaseDir(mp) ELSE <<"">>
+LoadBaseEverywhereAt(I, cwd, mp) ==
+  LoadBaseAt(I, cwd, mp) /\ \A pl \in Placements : LoadBaseDirOf(mp, pl) = LoadBaseDir(mp)
 
 \* the base spelling in effect for spelling record s
 BaseOf(s) == IF s.route = "load" THEN LoadBaseDir(s.mp) ELSE s.b
